@@ -3,6 +3,7 @@ import CmModel.Lab
 import CmModel.Hsl
 import CmModel.Descent
 import CmModel.Color
+import CmModel.Cert
 import CmGen.NamedColors
 /-! Line-protocol driver: one operation per input line, one result line per operation. -/
 open Cm Cm.Proto
@@ -221,6 +222,10 @@ def handle (toks : List String) : Option String :=
       match best with
       | some (c, d, k) => pure s!"{fmtRgb c} {hexOfFloat d} {hexOfFloat k}"
       | none => pure "none"
+  | ["cert", r, g, b, r2, g2, b2, num, den] => do
+      -- certified (proved sound over ℝ) verdict `ratio ≥ num/den`
+      let c ← rgbOf r g b; let d ← rgbOf r2 g2 b2; let n ← parseInt num; let m ← den.toNat?
+      pure (match certVerdict c d (mkRat n m) with | some true => "true" | some false => "false" | none => "none")
   | ["pmod", x, y] => do
       let x ← floatOfHex x; let y ← floatOfHex y; pure (hexOfFloat (Num.pmod x y))
   | ["round", x] => do let x ← floatOfHex x; pure (toString (Num.roundHE x))
